@@ -140,3 +140,52 @@ Lemma step_KPick : forall s e s' r sv olb,
 Proof.
   intros s e s' r sv olb H Hk. step_inv_k H Hk. eexists _, _. repeat split; eauto.
 Qed.
+
+(** * Responses *)
+
+Lemma byte_eqb_eq (a b : byte) : byte_eqb a b = true <-> a = b.
+Proof. unfold byte_eqb. split; [apply byte_dec_bl | apply byte_dec_lb]. Qed.
+
+Lemma str_eqb_eq (a b : str) : str_eqb a b = true <-> a = b.
+Proof.
+  revert b. induction a as [|x a IH]; intros [|y b]; cbn; try (split; congruence).
+  rewrite andb_true_iff, byte_eqb_eq, IH. split.
+  - intros [H1 H2]. congruence.
+  - intros H. inversion H. auto.
+Qed.
+
+(** what the proxy may answer, by the phase the request is in *)
+Definition respond_ok (p : rphase) (status : N) (sb : str) : Prop :=
+  match p with
+  | PRouted None => status = 404%N
+  | PRouted (Some _) => (status = 200%N \/ status = 301%N \/ status = 503%N) /\ sb = []
+  | PGate _ AStopped => status = 503%N
+  | PGate _ ATimedOut => status = 504%N
+  | PLbClaimed _ None => status = 503%N
+  | PRefused _ => status = 503%N
+  | PEnded t st => status = st /\ (sb = [] -> st <> 200%N)
+  | _ => False
+  end.
+
+Ltac n_hyps :=
+  repeat match goal with
+  | H : N.eqb _ _ = true |- _ => apply N.eqb_eq in H
+  | H : N.eqb _ _ = false |- _ => apply N.eqb_neq in H
+  | H : _ || _ = true |- _ => apply orb_true_iff in H
+  end.
+
+Lemma step_KRespond : forall s e s' r status sb,
+  step s e = Some s' -> e_k e = KRespond r status sb ->
+  exists p, phase_of s r = Some p /\ respond_ok p status sb /\
+    s' = set_phase (tick s (e_t e)) r PDone /\
+    (forall t st, p = PEnded t st -> sb <> [] -> nget (tgt_names s) t = Some sb).
+Proof.
+  intros s e s' r status sb H Hk. step_inv_k H Hk; n_hyps.
+  all: eexists; split; [eassumption|split; [|split; [reflexivity|]]]; cbn [respond_ok]; auto.
+  all: try (intros t' st' Hp; discriminate Hp).
+  all: try (split; [reflexivity|]).
+  - split; auto. destruct Heqb as [Hb|Hb]; [apply orb_true_iff in Hb; destruct Hb as [Hb|Hb]|]; apply N.eqb_eq in Hb; auto.
+  - intros t' st' _ Hne. congruence.
+  - split; [assumption|discriminate].
+  - intros t' st' Hp Hne. inversion Hp; subst. apply str_eqb_eq in Heqb0. congruence.
+Qed.
